@@ -178,9 +178,7 @@ fn result_files(sub: &str) -> Vec<(&'static str, bool)> {
 }
 
 fn sorted_lines(b: &[u8]) -> Vec<Vec<u8>> {
-    let mut v: Vec<Vec<u8>> = b.split(|&c| c == b'\n').map(|l| l.to_vec()).collect();
-    v.sort();
-    v
+    canonical_unordered(b)
 }
 
 impl Engine for C17 {
